@@ -44,6 +44,8 @@ type srun struct {
 	stopRetLogged, graceRetLogged, ecLogged bool
 	stop2Req, stop2RetLogged                bool // a second Stop() overlapping the first
 	stop2Ret                                atomic.Bool
+	grace2Req, grace2RetLogged              bool // a second GracefulStop() overlapping the first
+	grace2Ret                               atomic.Bool
 	sawErrBad                               bool
 	rounds                                  atomic.Int64 // rounds of the inner discipline's scheduler (counting hook)
 }
@@ -158,6 +160,13 @@ func (r *srun) observe() {
 		// discipline that is still there (e.g. a handler inside Handle) is a leftover
 		if n := moduleGoroutines(); n > 0 {
 			r.emit(obs{E: "Leak", K: n, Note: "goroutines of the library still alive when GracefulStop() had returned"})
+		}
+	}
+	if r.grace2Ret.Load() && !r.grace2RetLogged {
+		r.grace2RetLogged = true
+		r.emit(obs{E: "GraceRet"}) // judged like the return of the first call
+		if n := moduleGoroutines(); n > 0 {
+			r.emit(obs{E: "Leak", K: n, Note: "goroutines of the library still alive when a second, overlapping GracefulStop() had returned"})
 		}
 	}
 	for !r.ecLogged {
@@ -278,7 +287,13 @@ func (r *srun) control(what string) {
 		r.emit(obs{E: "Cancel"})
 		r.cancel()
 	case "grace":
-		if r.graceReq || r.graceFn == nil {
+		if r.graceFn == nil || r.grace2Req {
+			return
+		}
+		if r.graceReq { // a second call overlapping the first: when it returns it owes what the first one owes
+			r.grace2Req = true
+			r.emit(obs{E: "Grace2"})
+			go func() { r.graceFn(); r.grace2Ret.Store(true) }()
 			return
 		}
 		r.graceReq = true
@@ -396,8 +411,8 @@ func TestRecordSimple(t *testing.T) {
 				if rnd.Intn(3) == 0 {
 					plan = append(plan, planned{rnd.Intn(steps), terms[rnd.Intn(len(terms))]})
 				}
-				if plan[0].what == "stop" && rnd.Intn(2) == 0 { // a second Stop() right behind the first, both pending together
-					plan = append(plan, planned{plan[0].at, "stop"})
+				if plan[0].what != "cancel" && rnd.Intn(2) == 0 { // a second Stop() / GracefulStop() right behind the first, both pending together
+					plan = append(plan, planned{plan[0].at, plan[0].what})
 				}
 				if cfg.Graceful && len(terms) > 1 && rnd.Intn(3) == 0 {
 					// a rough stop / cancellation while a graceful stop is pending (inputs still open)
